@@ -346,6 +346,10 @@ func workerMain(args []string) int {
 				agg.Other[v.Signature]++
 			}
 		}
+		if v := firstOf(res, *prop); v != nil && os.Getenv("VERIF_SURVEY") != "" {
+			agg.Other["SURVEY "+v.Signature]++
+			continue
+		}
 		if v := firstOf(res, *prop); v != nil {
 			if kf := matchKnown(known, v); kf != nil {
 				agg.KnownHits[kf.Line]++
@@ -670,6 +674,19 @@ func checkMain(args []string) int {
 	}
 	for _, e := range errs {
 		fmt.Fprintln(os.Stderr, "check:", e)
+	}
+	if os.Getenv("VERIF_SURVEY") != "" {
+		var ks []string
+		for k := range total.Other {
+			if strings.HasPrefix(k, "SURVEY ") {
+				ks = append(ks, k)
+			}
+		}
+		sort.Strings(ks)
+		for _, k := range ks {
+			fmt.Printf("%7d %s\n", total.Other[k], k)
+		}
+		return 0
 	}
 	writeEvidence(*verif, plan, *tier, *seed, total, wall, nviol, nw)
 	fmt.Printf("check %s tier=%s seed=%d: %d runs (%d non-trivial, %d distinct), %d steps, %.1fs wall, violations=%d\n",
